@@ -14,6 +14,8 @@ package main
 // for -0.0 (known finding C16-N5: floatsOk is false there, by design).
 
 import (
+	"bytes"
+	"encoding/json"
 	"fmt"
 	"math"
 	"strings"
@@ -218,4 +220,37 @@ func (x *c16Runner) textLegCall(k *c16Case, inv *core.InvocationData, src string
 			r.hist("textleg_call_hypotheses_fail_and_real_fails")
 		}
 	})
+}
+
+// c16CanonTopOrdered: the token encoding of a JSON object with its members in SOURCE order and
+// duplicates kept (the order matters for the split key: the last matching member wins); member
+// values are canonicalised as usual.  Anything that is not an object is canonicalised as a whole.
+func c16CanonTopOrdered(raw []byte) (string, error) {
+	t := bytes.TrimSpace(raw)
+	if len(t) == 0 || t[0] != '{' {
+		return c16CanonText(raw, false)
+	}
+	dec := json.NewDecoder(bytes.NewReader(t))
+	if _, err := dec.Token(); err != nil {
+		return "", err
+	}
+	var sb strings.Builder
+	sb.WriteString("{ ")
+	for dec.More() {
+		kt, err := dec.Token()
+		if err != nil {
+			return "", err
+		}
+		var val json.RawMessage
+		if err := dec.Decode(&val); err != nil {
+			return "", err
+		}
+		vt, err := c16CanonText(val, false)
+		if err != nil {
+			return "", err
+		}
+		sb.WriteString("k" + hx(kt.(string)) + " " + vt + " ")
+	}
+	sb.WriteString("}")
+	return sb.String(), nil
 }
